@@ -8,14 +8,24 @@ from .runner import call_real
 from .ops_nf import frame_view
 
 
-def build(seed):
-    """a small frame with identifier and non-identifier names; deterministic"""
-    flat = pd.DataFrame({"a": pd.array([1.0, 2.0, None, 4.0, 5.0], dtype=pd.ArrowDtype(pa.float64())),
-                         "b c": pd.array([5, 4, 3, 2, 1], dtype=pd.ArrowDtype(pa.int64()))},
-                        index=pd.Index([10, 10, 20, 30, 30]))
-    other = pd.DataFrame({"z": pd.array([1.5, 2.5, 3.5], dtype=pd.ArrowDtype(pa.float64()))}, index=pd.Index([10, 20, 30]))
-    nf = NestedFrame({"x": np.array([1.0, 2.0, 3.0]), "y": np.array([3, 2, 1])}, index=pd.Index([10, 20, 30]))
-    nf = nf.add_nested(flat, "n").add_nested(other, "my nest")
+def build(seed, variant="fresh"):
+    """a small frame with identifier and non-identifier names; deterministic.
+    variant "sliced": the same labels as rows 1.. of a longer frame (single chunk, non-zero offsets) whose middle row
+    has no record (a missing nested row inside the slice)"""
+    if variant == "sliced":
+        flat = pd.DataFrame({"a": pd.array([9.0, 8.0, 1.0, 2.0, 4.0, 5.0], dtype=pd.ArrowDtype(pa.float64())),
+                             "b c": pd.array([7, 6, 5, 4, 2, 1], dtype=pd.ArrowDtype(pa.int64()))},
+                            index=pd.Index([5, 5, 10, 10, 30, 30]))
+        other = pd.DataFrame({"z": pd.array([0.5, 1.5, 2.5, 3.5], dtype=pd.ArrowDtype(pa.float64()))}, index=pd.Index([5, 10, 20, 30]))
+        nf = NestedFrame({"x": np.array([0.0, 1.0, 2.0, 3.0]), "y": np.array([4, 3, 2, 1])}, index=pd.Index([5, 10, 20, 30]))
+        nf = nf.add_nested(flat, "n").add_nested(other, "my nest").iloc[1:]
+    else:
+        flat = pd.DataFrame({"a": pd.array([1.0, 2.0, None, 4.0, 5.0], dtype=pd.ArrowDtype(pa.float64())),
+                             "b c": pd.array([5, 4, 3, 2, 1], dtype=pd.ArrowDtype(pa.int64()))},
+                            index=pd.Index([10, 10, 20, 30, 30]))
+        other = pd.DataFrame({"z": pd.array([1.5, 2.5, 3.5], dtype=pd.ArrowDtype(pa.float64()))}, index=pd.Index([10, 20, 30]))
+        nf = NestedFrame({"x": np.array([1.0, 2.0, 3.0]), "y": np.array([3, 2, 1])}, index=pd.Index([10, 20, 30]))
+        nf = nf.add_nested(flat, "n").add_nested(other, "my nest")
     # a plain (not nested) struct-of-lists column, as `read_parquet(reject_nesting=...)` leaves it
     st = pa.StructArray.from_arrays([pa.array([[1, 2], [3], [4, 5]]), pa.array([[1., 2.], [3.], [4., 5.]])], names=["p", "q"])
     nf["st"] = pd.Series(st, dtype=pd.ArrowDtype(st.type), index=nf.index)
@@ -85,6 +95,13 @@ PREFIX_OPS = {
     "sort_mixed": lambda f: f.sort_values(["n.a", "x"]),
     "dropna_mixed": lambda f: f.dropna(subset=["n.a", "my nest.z"]),
     "dropna_inplace_fail": lambda f: f.dropna(subset=["n.a", "x"], inplace=True),
+    # in-place dropna on a nested layer that fails AFTER its target was resolved
+    "dropna_inplace_unknown_field": lambda f: f.dropna(subset="n.nofield", inplace=True),
+    "dropna_inplace_how_and_thresh": lambda f: f.dropna(subset="n.a", how="any", thresh=1, inplace=True),
+    # plain reads of the flat views (they must not write anything)
+    "read_to_flat": lambda f: f["n"].nest.to_flat(),
+    "read_flat_index": lambda f: f["n"].nest.get_flat_index(),
+    "read_list_offsets": lambda f: f["n"].array.list_offsets,
     "reduce_raises": lambda f: f.reduce(boom, "n.a"),
     "reduce_no_columns": lambda f: f.reduce(lambda: 0),
     "add_nested_bad_on": lambda f: f.add_nested(pd.DataFrame({"q": [1]}), "w", on="missing_col"),
@@ -133,6 +150,7 @@ PROBES = {
     "list_lengths": lambda f: [int(v) for v in f["n"].array.list_lengths],
     "count_nested": lambda f: frame_view(__import__("nested_pandas").utils.count_nested(f, "n")),
     "nested_columns": lambda f: list(f.nested_columns),
+    "isna": lambda f: [bool(v) for v in f["n"].isna()] + [int(f["n"].count())],
     # (looks at the column objects only: anything that copies the frame would clear pandas' item cache)
     "column_labels": lambda f: [str(f[c].name) for c in f.columns] + [str(c) for c in f["mixed"].to_frame().columns],
     "fields": lambda f: [list(f[c].nest.fields) for c in f.nested_columns] + [str(f[c].dtype) for c in f.nested_columns],
@@ -150,8 +168,12 @@ ALL_OPS = {**PREFIX_OPS, **MUT_OPS}
 
 
 def run_history(ctx, names):
-    fresh = build(0)
-    nf = build(0)
+    # every third history starts from the sliced variant of the frame
+    k_hist = getattr(ctx, "_hist_count", 0)
+    ctx._hist_count = k_hist + 1
+    variant = "sliced" if k_hist % 3 == 2 else "fresh"
+    fresh = build(0, variant)
+    nf = build(0, variant)
     outcomes = []
     for nm in names:
         r = call_real(lambda: ALL_OPS[nm](nf))
@@ -167,7 +189,7 @@ def run_history(ctx, names):
         obj, ref = (nf, fresh) if who == "same" else (nf.copy(), fresh.copy())
         # probes that only LOOK at the object come first (some later probes copy the frame internally, and pandas'
         # copy() clears the item cache of its source — which would repair state left there before it is looked at)
-        first = ["nest_series_index", "flat_index", "column_labels", "fields", "aliases_attr", "ok_isna", "list_lengths", "nested_columns", "data", "all_columns"]
+        first = ["isna", "nest_series_index", "flat_index", "column_labels", "fields", "aliases_attr", "ok_isna", "list_lengths", "nested_columns", "data", "all_columns"]
         order = first + [k for k in PROBES if k not in first]
         for pn in order:
             pf = PROBES[pn]
@@ -175,8 +197,8 @@ def run_history(ctx, names):
             exp = call_real(lambda: pf(ref))
             real_c = real if "ok" in real else {"err": real.get("err")}
             exp_c = exp if "ok" in exp else {"err": exp.get("err")}
-            ctx.case(f"history.{pn}", {"prefix": list(names), "prefix_outcomes": outcomes, "on": who}, real_c, None, exp_c,
-                     features=(f"len={len(names)}", who) + tuple(names[:1]),
+            ctx.case(f"history.{pn}", {"prefix": list(names), "prefix_outcomes": outcomes, "on": who, "frame": variant}, real_c, None, exp_c,
+                     features=(f"len={len(names)}", who, variant) + tuple(names[:1]),
                      spec_ok=(real_c == exp_c), nontrivial=True)
 
 
